@@ -166,7 +166,7 @@ Proof.
   pose proof (register_oneofs_own m Hm _ _ _ _ _ (fun o Ho => Ho) HO Hown Ereg) as HOa.
   destruct (fields_loop D rec m sta exs (m_fields m)) as [[[stb exs2] ps]| | |] eqn:Ef; cbn [obind] in H; try discriminate.
   pose proof (fields_loop_own m _ _ _ _ _ _ HOa Ef) as HOb.
-  destruct (existsb ex_pending exs2); cbn [obind] in H; [discriminate|].
+  destruct (existsb ex_pending exs2); cbn [obind] in H; [discriminate|]. destruct (negb (exs_names_ok exs2)); cbn [obind] in H; [discriminate|].
   destruct (negb (props_valid ps)); [discriminate|].
   destruct (is_oneof_wrapper m); [inversion H; subst; apply finish_oneofs_own; exact HOb|].
   destruct (flatten_cycle _ (msg_key m) ps) as [[|]|]; try discriminate.
@@ -329,7 +329,7 @@ Proof.
     destruct (find_psm D n); cbn [rbind] in Hr; [|discriminate]. inversion Hr. reflexivity. }
   pose proof Edp as Edp0. unfold decl_props in Edp.
   destruct (decl_fields D n (decl_exposed n 0 (m_oneofs n)) (m_fields n)) as [[exs0 ps0]|] eqn:Ef; cbn [rbind] in Edp; [|discriminate].
-  destruct (existsb ex_pending exs0); [discriminate|]. destruct (negb (props_valid ps0)); [discriminate|].
+  destruct (existsb ex_pending exs0); [discriminate|]. destruct (negb (exs_names_ok exs0)); [discriminate|]. destruct (negb (props_valid ps0)); [discriminate|].
   inversion Edp; subst exs0 ps0.
   destruct (decl_fields_places D n _ _ _ _ Ef) as [_ Hall].
   destruct (Hall f Hf) as (p0 & Ep0 & Hwhere). rewrite Hp in Ep0. inversion Ep0; subst p0.
@@ -354,7 +354,7 @@ Variable rec : sset -> msgd -> outcome (sset * root).
 Hypothesis HrecK : forall st m, Pk fst st (rec st m).
 Hypothesis HrecC : forall st m st1 r, In m (d_msgs D) -> Canon D st -> lookup st (msg_key m) = Some Placeholder ->
   rec st m = Ok (st1, r) -> Canon D st1 /\ decl_root D m = ROk r /\ oneofs_final D st1 m.
-Hypothesis HrecP : forall st m, In m (d_msgs D) -> InvS D st -> unvisited D st < fl -> Ps D fst (Qr D) st (rec st m).
+Hypothesis HrecP : forall st m, In m (d_msgs D) -> InvS D st -> unvisited D st < fl -> Ps D fst Qr st (rec st m).
 Hypothesis HrecA : forall st m st1 r, acyclic st -> rec st m = Ok (st1, r) -> acyclic (update st1 (msg_key m) (Linked r)).
 Hypothesis HrecO : forall st m st1 r, In m (d_msgs D) -> Owner D st -> has_key st (msg_key m) = true ->
   rec st m = Ok (st1, r) -> Owner D st1.
@@ -562,7 +562,7 @@ Proof.
   destruct (decl_props D n) as [[exsD psD]|] eqn:Edp; cbn [rbind] in Hr0'; [|discriminate].
   pose proof Edp as Edp'. unfold decl_props in Edp'.
   destruct (decl_fields D n (decl_exposed n 0 (m_oneofs n)) (m_fields n)) as [[exs0 ps0]|] eqn:Edf; cbn [rbind] in Edp'; [|discriminate].
-  destruct (existsb ex_pending exs0) eqn:Epend; [discriminate|]. destruct (negb (props_valid ps0)) eqn:Evalid; [discriminate|].
+  destruct (existsb ex_pending exs0) eqn:Epend; [discriminate|]. destruct (negb (exs_names_ok exs0)) eqn:Enames; [discriminate|]. destruct (negb (props_valid ps0)) eqn:Evalid; [discriminate|].
   inversion Edp'; subst exs0 ps0. clear Edp'.
   (* registration *)
   assert (Hreg : exists sta exs, register_oneofs n st0 0 (m_oneofs n) = ROk (sta, exs)).
@@ -591,12 +591,12 @@ Proof.
   rewrite <- Hexs in Edf.
   destruct (fields_loop_success n r0 (m_fields n) sta exs exsD psD HBa HUa Hn Hla (fun f Hf => Hf) Edf) as (stb & Eloop & Hnewb).
   (* assemble *)
-  unfold build_root, message_properties. rewrite Ereg. cbn [lift obind]. rewrite Eloop. cbn [obind]. rewrite Epend. cbn [obind]. rewrite Evalid.
+  unfold build_root, message_properties. rewrite Ereg. cbn [lift obind]. rewrite Eloop. cbn [obind]. rewrite Epend, Enames. cbn [obind]. rewrite Evalid.
   set (stc := finish_oneofs stb exsD).
   (* entries of sb are untouched, the new objects with flattened properties are objects of sa *)
   assert (Hkeepc : keeps st0 stc).
   { pose proof (message_properties_k D rec HrecK st0 n) as Hk. unfold message_properties in Hk.
-    rewrite Ereg in Hk. cbn [lift obind] in Hk. rewrite Eloop in Hk. cbn [obind] in Hk. rewrite Epend in Hk. exact Hk. }
+    rewrite Ereg in Hk. cbn [lift obind] in Hk. rewrite Eloop in Hk. cbn [obind] in Hk. rewrite Epend, Enames in Hk. exact Hk. }
   assert (Hnewc : NewIn sb stc).
   { intros k r Hl Ht.
     pose proof (finish_linked_old _ _ _ _ Hl Ht) as Hlb'.
